@@ -17,13 +17,13 @@ def ch(text, technique, ref, engine="chan_stress", note=TRUST_CH):
 
 CLAIMS = {
     "C01": ch("Held on every execution observed (apart from listed known findings): generated closed multi-threaded scenarios over all "
-              "nine point-to-point flavours and every send/recv form (single, batch, in-place, timed, async with cancellation, "
+              "ten point-to-point flavours (the nine of fibre plus the experimental lock-free mpmc_exp ring) and every send/recv form (single, batch, in-place, timed, async with cancellation, "
               "conversions), perturbed at the library's atomic steps; multiset conservation (no phantom, no duplicate, no loss after "
               "a drain to Disconnected, failed operations hand back exactly input[sent..]) plus the deterministic async stepper.",
               "runtime monitoring: recorded client-boundary histories + conservation/hand-back checker under chaos scheduling; deterministic poll/drop stepper",
               "DESIGN.md §2 C01", engine="chan_stress+chan_stepper"),
     "C02": ch("Held on every execution observed: per consumer handle the values of each producer handle arrive in strictly increasing "
-              "send sequence, over all 8 queue flavours with ring wrap / chunk and slab recycling sizes, batch and single forms.",
+              "send sequence, over all 9 queue flavours (incl. mpmc_exp) with ring wrap / chunk and slab recycling sizes, batch and single forms.",
               "runtime monitoring: recorded history + per-producer order checker under chaos scheduling", "DESIGN.md §2 C02"),
     "C03": ch("Held on every execution observed: interval-sound capacity inequality (completed sends minus receives already invoked "
               "never exceeds capacity; rendezvous: 0), len()<=capacity() probes, oneshot single success.",
@@ -42,7 +42,9 @@ CLAIMS = {
     "C06": ch("Held on every program/execution observed (apart from listed known findings): deterministic programs that create, "
               "poll, re-poll with a different waker and drop futures of every async API; at quiescence every pending future is "
               "polled spontaneously - Ready proves a lost wake; conservation after the final drain proves cancel safety; plus "
-              "threaded async/cancel scenarios under the stuck oracle.",
+              "threaded async/cancel scenarios (futures also dropped at the moment their waker fires, producers pausing until "
+              "everything sent was received) under the stuck oracle; the broadcast spmc ring runs through the same stepper with a "
+              "per-receiver sequence oracle, topic recv() futures are kept pending across steps of the topic model.",
               "runtime monitoring: deterministic stepper with spontaneous re-poll oracle + threaded chaos runs with stuck oracle",
               "DESIGN.md §1.6, §2 C06", engine="chan_stepper+chan_stress"),
     "C09": ch("Held on every execution observed: every payload (clones included) owns a ledger slot bumped by its Drop; after all "
